@@ -3,6 +3,7 @@ package main
 import (
 	"fmt"
 	"go/types"
+	"os"
 	"path"
 	"sort"
 	"strconv"
@@ -452,6 +453,9 @@ func init() {
 		st.writer = true
 		m.acquire(th, st.vcW)
 		m.acquire(th, st.vcR)
+		if os.Getenv("GOSYM_TRACE") != "" {
+			fmt.Fprintf(os.Stderr, "T%d RW.Lock %p vcW=%v -> vc=%v at %s\n", th.id, a[0].(*Cell), st.vcW, th.vc, m.whereShort(th))
+		}
 		return nil, true
 	})
 	reg("(*sync.RWMutex).Unlock", func(m *Machine, th *Thread, fn *ssa.Function, a []Value) (Value, bool) {
@@ -464,6 +468,9 @@ func init() {
 		}
 		st.writer = false
 		m.release(th, &st.vcW)
+		if os.Getenv("GOSYM_TRACE") != "" {
+			fmt.Fprintf(os.Stderr, "T%d RW.Unlock %p vcW=%v at %s\n", th.id, a[0].(*Cell), st.vcW, m.whereShort(th))
+		}
 		return nil, true
 	})
 	reg("(*sync.RWMutex).RLock", func(m *Machine, th *Thread, fn *ssa.Function, a []Value) (Value, bool) {
